@@ -15,6 +15,8 @@
  *   V name nrec nf (fname nt order)*nf n v..   Vdata, full interlace, n = nrec*sum(order)
  *   E name                             empty Vgroup
  *   Z name nt rank d.. fill idx val    (mk only) SDS filled with one value, element idx set to val
+ *   Q name nt ncomp xdim ydim fill idx val   (mk only) image filled with one value, element idx set to val
+ *   W name nrec nf (fname nt order)*nf a b   (mk only) Vdata whose k-th scalar is (k*a+b) mod 127 (floats: that / 8)
  * Values: integers for the integer/char types; float32/float64 values are given by their IEEE bit pattern
  * (unsigned integer), so that nothing in the harness or the drivers formats or parses floating text.
  *
@@ -184,6 +186,53 @@ static int do_mk(const char *desc, const char *out)
             CK(VSdetach(vs));
             free(b);
         }
+        else if (!strcmp(tok[0], "Q")) {
+            int32 nt = atoi(tok[2]), nc = atoi(tok[3]), dims[2], start[2] = {0, 0};
+            dims[0] = atoi(tok[4]); dims[1] = atoi(tok[5]);
+            long n = (long)dims[0] * dims[1] * nc, idx = atol(tok[7]);
+            int w = ntsize(nt);
+            unsigned char *b = (unsigned char *)calloc((size_t)n, (size_t)w);
+            for (long i = 0; i < n; i++) put_val(nt, b + (size_t)i * w, tok[6]);
+            if (idx >= 0 && idx < n) put_val(nt, b + (size_t)idx * w, tok[8]);
+            int32 ri = GRcreate(gr, tok[1], nc, nt, MFGR_INTERLACE_PIXEL, dims);
+            CK(ri);
+            CK(GRwriteimage(ri, start, NULL, dims, b));
+            CK(GRendaccess(ri));
+            free(b);
+        }
+        else if (!strcmp(tok[0], "W")) {
+            int nrec = atoi(tok[2]), nf = atoi(tok[3]);
+            long a = atol(tok[4 + 3 * nf]), bb = atol(tok[5 + 3 * nf]);
+            int32 vs = VSattach(fid, -1, "w");
+            CK(vs);
+            CK(VSsetname(vs, tok[1]));
+            char fields[2048] = "";
+            int recsz = 0;
+            for (int i = 0; i < nf; i++) {
+                int32 nt = atoi(tok[5 + 3 * i]), ord = atoi(tok[6 + 3 * i]);
+                CK(VSfdefine(vs, tok[4 + 3 * i], nt, ord));
+                if (i) strcat(fields, ",");
+                strcat(fields, tok[4 + 3 * i]);
+                recsz += ntsize(nt) * ord;
+            }
+            CK(VSsetfields(vs, fields));
+            unsigned char *buf = (unsigned char *)calloc((size_t)nrec, (size_t)recsz), *p = buf;
+            long k = 0;
+            for (int r = 0; r < nrec; r++)
+                for (int i = 0; i < nf; i++) {
+                    int32 nt = atoi(tok[5 + 3 * i]), ord = atoi(tok[6 + 3 * i]);
+                    for (int o = 0; o < ord; o++, k++) {
+                        long v = (k * a + bb) % 127;
+                        if ((nt & 0xff) == DFNT_FLOAT32) { float x = (float)v / 8.0f; memcpy(p, &x, 4); }
+                        else if ((nt & 0xff) == DFNT_FLOAT64) { double x = (double)v / 8.0; memcpy(p, &x, 8); }
+                        else { char t[32]; snprintf(t, sizeof t, "%ld", v); put_val(nt, p, t); }
+                        p += ntsize(nt);
+                    }
+                }
+            CK(VSwrite(vs, buf, nrec, FULL_INTERLACE));
+            CK(VSdetach(vs));
+            free(buf);
+        }
         else if (!strcmp(tok[0], "E")) {
             int32 vg = Vattach(fid, -1, "w");
             CK(vg);
@@ -231,7 +280,7 @@ static int do_rd(const char *desc, const char *file)
             print_attr_line(tok[0], nm, nt, n, b);
             free(b);
         }
-        else if (!strcmp(tok[0], "S")) {
+        else if (!strcmp(tok[0], "S") || !strcmp(tok[0], "Z")) {
             if (sds != FAIL) { SDendaccess(sds); sds = FAIL; }
             int32 idx = SDnametoindex(sd, tok[1]);
             if (idx == FAIL) { printf("S %s missing\n", tok[1]); continue; }
@@ -250,7 +299,7 @@ static int do_rd(const char *desc, const char *file)
             printf("\n");
             free(b);
         }
-        else if (!strcmp(tok[0], "R")) {
+        else if (!strcmp(tok[0], "R") || !strcmp(tok[0], "Q")) {
             int32 idx = GRnametoindex(gr, tok[1]);
             if (idx == FAIL) { printf("R %s missing\n", tok[1]); continue; }
             int32 ri = GRselect(gr, idx);
@@ -266,7 +315,7 @@ static int do_rd(const char *desc, const char *file)
             GRendaccess(ri);
             free(b);
         }
-        else if (!strcmp(tok[0], "V")) {
+        else if (!strcmp(tok[0], "V") || !strcmp(tok[0], "W")) {
             int32 ref = VSfind(fid, tok[1]);
             if (ref <= 0) { printf("V %s missing\n", tok[1]); continue; }
             int32 vs = VSattach(fid, ref, "r");
